@@ -756,7 +756,12 @@ func (tm *TaskMaster) forkPoint(p edge.PointMessage) {
 		_ = edge.Collect(p)
 	}
 
-	for _, edge := range tm.forks[emptyMeasurementKey] {
+	for id, edge := range tm.forks[emptyMeasurementKey] {
+		// A task with both a filtered and an unfiltered from() is registered
+		// under both keys with the same edge, do not deliver the point twice.
+		if _, ok := tm.forks[key][id]; ok {
+			continue
+		}
 		_ = edge.Collect(p)
 	}
 
